@@ -14,7 +14,7 @@ import (
 )
 
 type Edit struct {
-	Kind  string `json:"kind"` // write | atomic | remove | rename | mkdir
+	Kind  string `json:"kind"` // write | atomic | backup | remove | rename | mkdir | pause
 	Path  string `json:"path"`
 	Data  string `json:"data,omitempty"`
 	To    string `json:"to,omitempty"`
@@ -118,6 +118,20 @@ func expandEdits(edits []Edit) []editStep {
 			tmp := path.Dir(e.Path) + "/." + path.Base(e.Path) + ".swp~"
 			out = append(out, editStep{func() { fs.PutFileRaw(tmp, []byte(e.Data)); notify(tmp, EvCreate); notify(tmp, EvWrite) }, "tmpwrite " + tmp, false, false})
 			out = append(out, editStep{func() { RenameRaw(tmp, e.Path) }, "rename->" + e.Path, true, false})
+		case "backup":
+			// the way vim saves by default: move the file aside, write a new one under the old name, delete the backup
+			// (for a moment the file does not exist at all)
+			bak := e.Path + "~"
+			out = append(out, editStep{func() { RenameRaw(e.Path, bak) }, "rename-aside " + e.Path, false, false})
+			out = append(out, editStep{func() { fs.PutFileRaw(e.Path, []byte(e.Data)); notify(e.Path, EvCreate); notify(e.Path, EvWrite) }, "write-new " + e.Path, false, false})
+			out = append(out, editStep{func() {
+				if p, n, er := fs.parentOf(bak); er == 0 {
+					if _, ok := p.Children[n]; ok {
+						delete(p.Children, n)
+						notify(bak, EvRemove)
+					}
+				}
+			}, "remove-backup " + bak, true, false})
 		case "remove":
 			out = append(out, editStep{func() {
 				if p, n, er := fs.parentOf(e.Path); er == 0 {
